@@ -287,7 +287,10 @@ def run_batch(prop_id, tier, seed, runs=None, workers=None, max_wall=None, selft
             cmd = [sys.executable, os.path.join(VERIF, "run_check.py"), prop_id, "--replay", path]
             p = subprocess.run(cmd, env=fresh_env("0"), capture_output=True, text=True, timeout=900)
             rep["replay_reproduced"] = p.returncode == 1 and f"VIOLATION property={prop_id}" in p.stdout
-            if not rep["replay_reproduced"]:
+            if not rep["replay_reproduced"] and getattr(mod, "NONREPRODUCIBLE_IS_VIOLATION", False):
+                # for the reproducibility property itself a violation that does not replay IS the finding
+                rep["note"] = "the replay did not reproduce: the executions are not a function of their inputs"
+            elif not rep["replay_reproduced"]:
                 harness_errors.append(f"replay of {path} did not reproduce (exit {p.returncode}): {p.stdout[-300:]} {p.stderr[-300:]}")
             reports.append((path, rep))
     finally:
